@@ -733,6 +733,10 @@ pub fn analyze(sc: &Scenario, out: &RunOut) -> Analysis {
                     continue;
                 }
                 if !is_run {
+                    // No command of the driver may panic, whatever it is.
+                    if let Res::Panicked(m) = res {
+                        viol!("api_panic", "command #{} ({:?}) panicked: {}", i, cmd, m);
+                    }
                     continue;
                 }
                 // Sends issued by the driver or a source complete with the command.
